@@ -180,3 +180,121 @@ pub fn heap_unit(ctx: &Ctx, rep: &mut Report) {
 pub fn heap_unit(_ctx: &Ctx, rep: &mut Report) {
     rep.notes.push("built without --cfg kodama_verif: heap unit-level session skipped".into());
 }
+
+// ---------------------------------------------------------------------------
+// LinkageUnionFind: op sequences on the real union-find (hook `VUnionFind`) vs the Lean model's
+// FAITHFUL union-find (`Model/UnionFindC.lean`, path compression included): the whole `parents`
+// array and `next_parent` are compared after every operation.
+// ---------------------------------------------------------------------------
+
+#[cfg(kodama_verif)]
+fn parse_uf_dump(d: &str) -> String {
+    // "VUnionFind(LinkageUnionFind { parents: [..], next_parent: k })"
+    let k = d.find("parents: [").map(|i| i + 10).unwrap_or(0);
+    let e = d[k..].find(']').map(|j| k + j).unwrap_or(k);
+    let parents = d[k..e].split(',').map(|s| s.trim()).filter(|s| !s.is_empty()).collect::<Vec<_>>().join(",");
+    let np = d.find("next_parent: ").map(|i| i + 13).unwrap_or(0);
+    let next: String = d[np..].chars().take_while(|c| c.is_ascii_digit()).collect();
+    format!("parents={} next={}", parents, next)
+}
+
+#[cfg(kodama_verif)]
+pub fn uf_unit(ctx: &Ctx, rep: &mut Report) {
+    use crate::core::{classify_panic, run_driver};
+    use std::panic::{self, AssertUnwindSafe};
+    if ctx.driver == "none" {
+        return;
+    }
+    let mut rng = Rng::new(ctx.seed ^ 0x0F1D);
+    let rounds = if ctx.thorough { 3000 } else { 300 };
+    let mut lines: Vec<String> = vec![];
+    let mut impl_out: Vec<String> = vec![];
+    for round in 0..rounds {
+        let id = round % 7; // objects are reused across rounds (reset on stale content)
+        let mut u = kodama::verif::VUnionFind::new();
+        // replay the history of this slot so that the real object carries the same stale content
+        // as the model's slot: simpler — use a fresh id per round but start with a garbage phase
+        let id = round * 8 + id;
+        let n0 = rng.range(0, 12);
+        u.reset(n0);
+        lines.push(format!("uf {} reset {}", id, n0));
+        impl_out.push(format!("ok {}", parse_uf_dump(&format!("{:?}", u))));
+        // garbage phase: a few unions on the first size, then reset to the size under test
+        let mut next = n0;
+        for _ in 0..rng.below(4) {
+            if next >= 2 && next < 2 * n0.max(1) - 1 {
+                let a = rng.range(0, next - 1);
+                let b = rng.range(0, next - 1);
+                let r = panic::catch_unwind(AssertUnwindSafe(|| u.union(a, b)));
+                lines.push(format!("uf {} union {} {}", id, a, b));
+                impl_out.push(match r { Ok(()) => format!("ok {}", parse_uf_dump(&format!("{:?}", u))), Err(_) => format!("panic {}", classify_panic()) });
+                next = parse_uf_dump(&format!("{:?}", u)).rsplit('=').next().unwrap().parse().unwrap_or(next);
+            }
+        }
+        let n = rng.range(0, if round % 4 == 0 { 40 } else { 14 });
+        u.reset(n);
+        lines.push(format!("uf {} reset {}", id, n));
+        impl_out.push(format!("ok {}", parse_uf_dump(&format!("{:?}", u))));
+        let size = if n == 0 { 0 } else { 2 * n - 1 };
+        let mut next = n;
+        let nops = rng.range(2, 4 * n.max(1) + 4);
+        for _ in 0..nops {
+            match rng.below(5) {
+                0 | 1 => {
+                    // find of an existing label, occasionally of an untouched / out-of-range one
+                    let x = match rng.below(12) { 0 => rng.range(0, size + 1), _ => if next > 0 { rng.range(0, next - 1) } else { 0 } };
+                    let r = panic::catch_unwind(AssertUnwindSafe(|| u.find(x)));
+                    lines.push(format!("uf {} find {}", id, x));
+                    impl_out.push(match r { Ok(v) => format!("ok {} {}", v, parse_uf_dump(&format!("{:?}", u))), Err(_) => format!("panic {}", classify_panic()) });
+                }
+                _ => {
+                    if next == 0 {
+                        continue;
+                    }
+                    // labels below next_parent only: larger ones would let `parents` point downwards and a
+                    // later find of the real code could spin forever (never done by relabel)
+                    let mut a = rng.range(0, next - 1);
+                    let mut b = rng.range(0, next - 1);
+                    if rng.below(3) != 0 {
+                        // as relabel does: union of two roots
+                        let ra = u.find(a);
+                        lines.push(format!("uf {} find {}", id, a));
+                        impl_out.push(format!("ok {} {}", ra, parse_uf_dump(&format!("{:?}", u))));
+                        let rb = u.find(b);
+                        lines.push(format!("uf {} find {}", id, b));
+                        impl_out.push(format!("ok {} {}", rb, parse_uf_dump(&format!("{:?}", u))));
+                        a = ra;
+                        b = rb;
+                    }
+                    let r = panic::catch_unwind(AssertUnwindSafe(|| u.union(a, b)));
+                    lines.push(format!("uf {} union {} {}", id, a, b));
+                    impl_out.push(match r { Ok(()) => format!("ok {}", parse_uf_dump(&format!("{:?}", u))), Err(_) => format!("panic {}", classify_panic()) });
+                    next = parse_uf_dump(&format!("{:?}", u)).rsplit('=').next().unwrap().parse().unwrap_or(next);
+                }
+            }
+        }
+    }
+    crate::core::install_panic_hook();
+    let model = match run_driver(&ctx.driver, &lines) {
+        Ok(v) => v,
+        Err(e) => {
+            rep.fail("model", format!("driver error: {}", e), vec![], vec![], vec![]);
+            return;
+        }
+    };
+    for (k, (m, i)) in model.iter().zip(&impl_out).enumerate() {
+        rep.count("uf_unit_ops");
+        let same = if m.starts_with("panic") && i.starts_with("panic") { true } else { m == i };
+        if !same {
+            let id = lines[k].split(' ').nth(1).unwrap_or("").to_string();
+            let ops: Vec<String> = lines[..=k].iter().filter(|l| l.split(' ').nth(1) == Some(id.as_str())).cloned().collect();
+            rep.fail("model", "LinkageUnionFind (hook VUnionFind) and the model's compressing union-find differ after this op sequence".into(), ops, vec![i.clone()], vec![m.clone()]);
+            return;
+        }
+    }
+}
+
+#[cfg(not(kodama_verif))]
+pub fn uf_unit(_ctx: &Ctx, rep: &mut Report) {
+    rep.notes.push("built without --cfg kodama_verif: union-find unit-level session skipped".into());
+}
